@@ -603,7 +603,8 @@ impl<'a> KMergeIterator<'a> {
 				let start_idx = level.find_first_overlapping_table(&query_range);
 				let end_idx = level.find_last_overlapping_table(&query_range);
 
-				for table in &level.tables[start_idx..end_idx] {
+				// An empty or inverted range selects nothing (start_idx may exceed end_idx).
+				for table in level.tables.get(start_idx..end_idx).unwrap_or(&[]) {
 					// Skip tables outside timestamp range (if specified)
 					if let Some((ts_start, ts_end)) = ts_range {
 						let props = &table.meta.properties;
